@@ -10,7 +10,7 @@ Definition same_set (a b : list N) : Prop := forall x, In x a <-> In x b.
 Definition Inv (s : ws) : Prop :=
   same_set (by_ns s) (map ns (defs s)) /\ same_set (by_nm s) (map nm (defs s)) /\
   NoDup (map ns (defs s)) /\ NoDup (map nm (defs s)) /\
-  (forall k, In k (evs s) -> In k (map nm (defs s))).
+  (forall k d, lookup k (evs s) = Some d -> exists x, In x (defs s) /\ builds x = true /\ nm x = k /\ doc x = d).
 
 Lemma mem_In x l : mem x l = true <-> In x l.
 Proof. unfold mem. rewrite existsb_exists. split.
@@ -25,7 +25,7 @@ Lemma In_del x y l : In x (del y l) <-> In x l /\ x <> y.
 Proof. unfold del. rewrite filter_In. rewrite negb_true_iff, N.eqb_neq. intuition congruence. Qed.
 
 Lemma Inv_init : Inv init.
-Proof. unfold Inv, init, same_set; cbn. repeat split; try tauto; try constructor. Qed.
+Proof. unfold Inv, init, same_set; cbn. repeat split; try tauto; try constructor. intros k d H. discriminate. Qed.
 
 Lemma Inv_add s m : Inv s -> Inv (fst (add s m)).
 Proof.
@@ -41,7 +41,7 @@ Proof.
   - intros x. cbn [In]. rewrite in_app_iff. cbn [In]. specialize (H2 x). tauto.
   - apply Permutation_NoDup with (l := ns m :: map ns (defs s)); [apply Permutation_cons_append | constructor; assumption].
   - apply Permutation_NoDup with (l := nm m :: map nm (defs s)); [apply Permutation_cons_append | constructor; assumption].
-  - intros k [].
+  - intros k d Hk. discriminate.
 Qed.
 
 Lemma NoDup_map_filter {A} (f : A -> N) p l : NoDup (map f l) -> NoDup (map f (filter p l)).
@@ -89,21 +89,77 @@ Proof. intros (H1 & H2 & H3 & H4 & H5). unfold remove, Inv; cbn [defs by_ns by_n
       apply kept_not_dropped; assumption.
   - apply NoDup_map_filter; assumption.
   - apply NoDup_map_filter; assumption.
-  - intros x [].
+  - intros x d Hx. discriminate.
 Qed.
 
-Lemma In_deploy_fold (l : list mdl) : forall acc x,
-  In x (fold_left (fun l d => if builds d then nm d :: del (nm d) l else l) l acc)
-  <-> In x acc \/ In x (map nm (filter builds l)).
-Proof. induction l as [|d l IH]; intros acc x; cbn [fold_left filter map In]; [tauto|].
-  rewrite IH. destruct (builds d); cbn [map In]; [|tauto].
-  rewrite In_del. destruct (N.eq_dec x (nm d)); intuition congruence. Qed.
+(* ---------- the evaluator map: HashMap insert replaces the entry of the same name ---------- *)
+Lemma lookup_deld k j l : lookup k (deld j l) = if N.eqb k j then None else lookup k l.
+Proof. induction l as [|[k' d] l IH]; cbn [deld filter fst lookup].
+  - destruct (k =? j); reflexivity.
+  - fold (deld j l). destruct (j =? k') eqn:E1; cbn [negb].
+    + rewrite IH. destruct (k =? j) eqn:E2; [reflexivity|].
+      apply N.eqb_eq in E1. subst k'. rewrite E2. reflexivity.
+    + cbn [lookup]. rewrite IH. destruct (k =? k') eqn:E3; destruct (k =? j) eqn:E2; try reflexivity.
+      apply N.eqb_eq in E3. apply N.eqb_eq in E2. apply N.eqb_neq in E1. congruence. Qed.
+
+Lemma find_app {A} (p : A -> bool) l1 l2 :
+  find p (l1 ++ l2) = match find p l1 with Some x => Some x | None => find p l2 end.
+Proof. induction l1 as [|a l1 IH]; cbn [app find]; [reflexivity|]. destruct (p a); [reflexivity|exact IH]. Qed.
+
+(* the document that deploy leaves under the name k: the last stored one of that name that builds *)
+Definition servedp (k : N) (x : mdl) : bool := builds x && N.eqb (nm x) k.
+
+Lemma lookup_deploy_fold (l : list mdl) : forall acc k,
+  lookup k (fold_left (fun l d => if builds d then (nm d, doc d) :: deld (nm d) l else l) l acc)
+  = match find (servedp k) (rev l) with Some x => Some (doc x) | None => lookup k acc end.
+Proof. induction l as [|a l IH]; intros acc k; cbn [fold_left rev find]; [reflexivity|].
+  rewrite IH, find_app. destruct (find (servedp k) (rev l)); [reflexivity|].
+  cbn [find]. unfold servedp. destruct (builds a); cbn [andb]; [|reflexivity].
+  cbn [lookup]. rewrite lookup_deld, (N.eqb_sym (nm a) k). destruct (k =? nm a); reflexivity. Qed.
+
+Lemma nm_inj l x y : NoDup (map nm l) -> In x l -> In y l -> nm x = nm y -> x = y.
+Proof. induction l as [|a l IH]; cbn [map In]; intros Hnd Hx Hy E; [contradiction|].
+  inversion Hnd as [|z zs Hn Hnd']; subst.
+  destruct Hx as [Hx|Hx]; destruct Hy as [Hy|Hy]; subst.
+  - reflexivity.
+  - exfalso. apply Hn. rewrite E. apply in_map. exact Hy.
+  - exfalso. apply Hn. rewrite <- E. apply in_map. exact Hx.
+  - apply IH; assumption. Qed.
+
+Lemma ns_inj l x y : NoDup (map ns l) -> In x l -> In y l -> ns x = ns y -> x = y.
+Proof. induction l as [|a l IH]; cbn [map In]; intros Hnd Hx Hy E; [contradiction|].
+  inversion Hnd as [|z zs Hn Hnd']; subst.
+  destruct Hx as [Hx|Hx]; destruct Hy as [Hy|Hy]; subst.
+  - reflexivity.
+  - exfalso. apply Hn. rewrite E. apply in_map. exact Hy.
+  - exfalso. apply Hn. rewrite <- E. apply in_map. exact Hx.
+  - apply IH; assumption. Qed.
+
+Lemma find_served_iff l k d : NoDup (map nm l) ->
+  match find (servedp k) (rev l) with Some x => Some (doc x) | None => None end = Some d
+  <-> exists x, In x l /\ builds x = true /\ nm x = k /\ doc x = d.
+Proof. intros Hnd. split.
+  - destruct (find (servedp k) (rev l)) as [x|] eqn:E; [|discriminate]. intros Hd. injection Hd as Hd.
+    apply find_some in E. destruct E as [Hi Hp]. apply in_rev in Hi. unfold servedp in Hp.
+    apply andb_true_iff in Hp. destruct Hp as [Hb Hk]. apply N.eqb_eq in Hk. exists x. tauto.
+  - intros [x (Hi & Hb & Hk & Hd)]. destruct (find (servedp k) (rev l)) as [y|] eqn:E.
+    + apply find_some in E. destruct E as [Hy Hp]. apply in_rev in Hy. unfold servedp in Hp.
+      apply andb_true_iff in Hp. destruct Hp as [_ Hk']. apply N.eqb_eq in Hk'.
+      assert (y = x) by (apply (nm_inj l); congruence). subst y. congruence.
+    + exfalso. apply in_rev in Hi. pose proof (find_none _ _ E x Hi) as Hf.
+      unfold servedp in Hf. rewrite Hb in Hf. apply N.eqb_eq in Hk. rewrite Hk in Hf. discriminate. Qed.
+
+(* after deploy the name k is served by the document d iff a stored model of that name and document builds *)
+Lemma deploy_serves s k d : NoDup (map nm (defs s)) ->
+  lookup k (evs (deploy s)) = Some d <-> exists x, In x (defs s) /\ builds x = true /\ nm x = k /\ doc x = d.
+Proof. intros Hnd. cbn [deploy evs]. rewrite lookup_deploy_fold. cbn [lookup].
+  apply find_served_iff. exact Hnd. Qed.
 
 Lemma Inv_deploy s : Inv s -> Inv (deploy s).
-Proof. intros (H1 & H2 & H3 & H4 & H5). unfold deploy, Inv; cbn [defs by_ns by_nm evs].
+Proof. intros (H1 & H2 & H3 & H4 & H5). unfold Inv. change (defs (deploy s)) with (defs s).
+  change (by_ns (deploy s)) with (by_ns s). change (by_nm (deploy s)) with (by_nm s).
   repeat split; try apply H1; try apply H2; try assumption.
-  intros x Hx. apply In_deploy_fold in Hx. destruct Hx as [[]|Hx].
-  apply in_map_iff in Hx. destruct Hx as [d [Hf Hd]]. apply filter_In in Hd. apply in_map_iff. exists d; tauto. Qed.
+  intros k d Hx. apply (deploy_serves s k d H4). exact Hx. Qed.
 
 Lemma Inv_step s o : Inv s -> Inv (fst (step remove s o)).
 Proof. intros Hs. destruct o as [m|n k|m| | |k]; cbn [step].
@@ -124,7 +180,7 @@ Proof. apply Inv_run, Inv_init. Qed.
 
 (* ---------- refinement of the abstract workspace ---------- *)
 Definition R (s : ws) (a : aws) : Prop :=
-  defs s = adefs a /\ (forall k, mem k (evs s) = mem k (aevs a)) /\ Inv s.
+  defs s = adefs a /\ (forall k, lookup k (evs s) = lookup k (aevs a)) /\ Inv s.
 
 Lemma existsb_clash l m :
   existsb (clash m) l = mem (ns m) (map ns l) || mem (nm m) (map nm l).
@@ -147,6 +203,31 @@ Proof. intros (Hd & He & Hi). pose proof (Inv_add s m Hi) as Hi'.
   destruct (mem (nm m) (by_nm s)); cbn [orb negb fst snd] in *; [split; [exact (conj Hd (conj He Hi)) | reflexivity]|].
   split; [|reflexivity]. split; [|split]; cbn [defs adefs evs aevs]; [congruence | reflexivity | exact Hi']. Qed.
 
+Lemma option_ext (a b : option N) : (forall d, a = Some d <-> b = Some d) -> a = b.
+Proof. intros H. destruct a as [x|], b as [y|]; try reflexivity.
+  - destruct (H x) as [H1 _]. specialize (H1 eq_refl). congruence.
+  - destruct (H x) as [H1 _]. specialize (H1 eq_refl). discriminate.
+  - destruct (H y) as [_ H2]. specialize (H2 eq_refl). discriminate. Qed.
+
+(* the evaluator list of the list-shaped abstract workspace *)
+Lemma lookup_map_iff l k d : NoDup (map nm l) ->
+  lookup k (map (fun x => (nm x, doc x)) (filter builds l)) = Some d
+  <-> exists x, In x l /\ builds x = true /\ nm x = k /\ doc x = d.
+Proof. induction l as [|a l IH]; cbn [map filter]; intros Hnd.
+  - cbn [lookup]. split; [discriminate|]. intros [x [[] _]].
+  - inversion Hnd as [|z zs Hn Hnd']; subst. specialize (IH Hnd'). destruct (builds a) eqn:B.
+    + cbn [map lookup]. destruct (k =? nm a) eqn:E.
+      * apply N.eqb_eq in E. split.
+        -- intros Hd. injection Hd as Hd. exists a. cbn [In]. auto.
+        -- intros [x ([Hx|Hx] & Hb & Hk & Hd)]; [subst x; congruence|].
+           exfalso. apply Hn. rewrite <- E, <- Hk. apply in_map. exact Hx.
+      * apply N.eqb_neq in E. rewrite IH. split.
+        -- intros [x (Hx & Hr)]. exists x. cbn [In]. tauto.
+        -- intros [x ([Hx|Hx] & Hb & Hk & Hd)]; [subst x; congruence|]. exists x. tauto.
+    + rewrite IH. split.
+      * intros [x (Hx & Hr)]. exists x. cbn [In]. tauto.
+      * intros [x ([Hx|Hx] & Hb & Hk & Hd)]; [subst x; congruence|]. exists x. tauto. Qed.
+
 Lemma R_remove s a n k : R s a -> R (remove s n k) (a_remove a n k).
 Proof. intros (Hd & He & Hi). split; [|split]; [|reflexivity|apply (Inv_remove s n k Hi)].
   cbn [remove defs a_remove adefs]. congruence. Qed.
@@ -161,10 +242,8 @@ Proof. intros HR. destruct o as [m|n k|m| | |k]; cbn [step astep].
   - split; [|reflexivity]. cbn [fst]. split; [|split]; [reflexivity|reflexivity|apply Inv_init].
   - split; [|reflexivity]. cbn [fst]. destruct HR as (Hd & He & Hi). split; [|split]; [| |apply (Inv_deploy s Hi)].
     + exact Hd.
-    + intros k. cbn [deploy evs aevs]. rewrite <- Hd.
-      destruct (mem k (map nm (filter builds (defs s)))) eqn:E.
-      * apply mem_In. apply In_deploy_fold. right. apply mem_In. exact E.
-      * apply mem_false. intro Hx. apply In_deploy_fold in Hx. destruct Hx as [[]|Hx]. apply mem_false in E. auto.
+    + intros k. cbn [aevs]. rewrite <- Hd. apply option_ext. intros d. destruct Hi as (_ & _ & _ & H4 & _).
+      rewrite (deploy_serves s k d H4). symmetry. apply lookup_map_iff. exact H4.
   - cbn [fst snd]. split; [exact HR|]. destruct HR as (_ & He & _). rewrite He. reflexivity. Qed.
 
 Lemma R_run ops : forall s a, R s a ->
@@ -177,7 +256,7 @@ Proof. induction ops as [|o ops IH]; intros s a HR; cbn [run arun fst snd]; [spl
 
 Theorem refines_abstract ops :
   defs (fst (run remove init ops)) = adefs (fst (arun ainit ops)) /\
-  (forall k, mem k (evs (fst (run remove init ops))) = mem k (aevs (fst (arun ainit ops)))) /\
+  (forall k, lookup k (evs (fst (run remove init ops))) = lookup k (aevs (fst (arun ainit ops)))) /\
   snd (run remove init ops) = snd (arun ainit ops).
 Proof. assert (H0 : R init ainit) by (split; [|split]; [reflexivity|reflexivity|apply Inv_init]).
   destruct (R_run ops init ainit H0) as [(H1 & H2 & _) H3]. repeat split; assumption. Qed.
@@ -211,16 +290,15 @@ Proof. induction post as [|o r IH]; cbn [forallb arun fst]; intros H a; [reflexi
   apply andb_true_iff in H. destruct H as [Ho Hr]. destruct o; try discriminate. cbn [astep].
   specialize (IH Hr a). destruct (arun a r). exact IH. Qed.
 
-Theorem deployed_exactly pre post k : forallb is_eval post = true ->
-  mem k (evs (fst (run remove init (pre ++ Deploy :: post)))) = true <->
-  exists d, In d (defs (fst (run remove init pre))) /\ builds d = true /\ nm d = k.
+Theorem deployed_exactly pre post k d : forallb is_eval post = true ->
+  lookup k (evs (fst (run remove init (pre ++ Deploy :: post)))) = Some d <->
+  exists x, In x (defs (fst (run remove init pre))) /\ builds x = true /\ nm x = k /\ doc x = d.
 Proof. intros Hp. destruct (refines_abstract (pre ++ Deploy :: post)) as (_ & He & _). rewrite He.
   destruct (refines_abstract pre) as (Hd & _ & _). rewrite Hd.
+  pose proof (reachable_inv pre) as (_ & _ & _ & H4 & _). rewrite Hd in H4.
   rewrite arun_app. cbn [arun astep]. 
   set (a1 := {| adefs := _; aevs := _ |}). pose proof (arun_evals post Hp a1) as H. destruct (arun a1 post). cbn [fst] in *. subst a.
-  unfold a1. cbn [aevs]. rewrite mem_In, in_map_iff. split.
-  - intros [d [Hk Hf]]. apply filter_In in Hf. exists d. tauto.
-  - intros [d [Hi [Hb Hk]]]. exists d. rewrite filter_In. tauto. Qed.
+  unfold a1. cbn [aevs]. apply lookup_map_iff. exact H4. Qed.
 
 Definition mutates (a : aws) (o : op) : bool :=
   match o with
@@ -230,7 +308,7 @@ Definition mutates (a : aws) (o : op) : bool :=
 
 Theorem mutation_undeploys pre o post k : forallb is_eval post = true ->
   mutates (fst (arun ainit pre)) o = true ->
-  mem k (evs (fst (run remove init (pre ++ o :: post)))) = false.
+  lookup k (evs (fst (run remove init (pre ++ o :: post)))) = None.
 Proof. intros Hp Hm. destruct (refines_abstract (pre ++ o :: post)) as (_ & He & _). rewrite He.
   rewrite arun_app. cbn [arun]. set (a0 := fst (arun ainit pre)) in *.
   assert (Ha : aevs (fst (astep a0 o)) = []).
@@ -242,13 +320,13 @@ Proof. intros Hp Hm. destruct (refines_abstract (pre ++ o :: post)) as (_ & He &
 
 (* a model that fails to build does not prevent the others from being deployed *)
 Theorem failed_build_isolated ops d : let s := fst (run remove init ops) in
-  In d (defs s) -> builds d = true -> mem (nm d) (evs (deploy s)) = true.
-Proof. cbn zeta. intros Hd Hb. apply mem_In. cbn [deploy evs]. apply In_deploy_fold. right.
-  apply in_map_iff. exists d. rewrite filter_In. tauto. Qed.
+  In d (defs s) -> builds d = true -> lookup (nm d) (evs (deploy s)) = Some (doc d).
+Proof. cbn zeta. intros Hd Hb. pose proof (reachable_inv ops) as (_ & _ & _ & H4 & _).
+  apply (deploy_serves _ (nm d) (doc d) H4). exists d. tauto. Qed.
 
 (* ---------- the code as it was before the fix: commit violates the invariant ---------- *)
-Definition mA := {| ns := 1; nm := 11; builds := true |}.
-Definition mB := {| ns := 2; nm := 12; builds := true |}.
+Definition mA := {| ns := 1; nm := 11; builds := true; doc := 101 |}.
+Definition mB := {| ns := 2; nm := 12; builds := true; doc := 102 |}.
 
 Theorem orig_remove_refuted : exists ops,
   ~ Inv (fst (run remove_orig init ops)) /\
@@ -258,8 +336,8 @@ Proof. exists [Add mA; Add mB; Remove 1 12]. split.
   - vm_compute. discriminate. Qed.
 
 (* non-vacuity: a reachable state with two stored models, one deployed, one failing to build *)
-Definition mE := {| ns := 4; nm := 14; builds := false |}.
+Definition mE := {| ns := 4; nm := 14; builds := false; doc := 106 |}.
 Example reachable_nontrivial :
   let s := fst (run remove init [Add mA; Add mE; Add mB; Remove 2 12; Deploy]) in
-  defs s = [mA; mE] /\ mem 11 (evs s) = true /\ mem 14 (evs s) = false.
+  defs s = [mA; mE] /\ lookup 11 (evs s) = Some 101 /\ lookup 14 (evs s) = None.
 Proof. vm_compute. auto. Qed.
